@@ -143,13 +143,29 @@ ResolveB(env, b) == IF Has(b, "ref") /\ EnvHas(env, b.ref.n) THEN EnvGet(env, b.
 
 \* mergo-style merge of allOf/anyOf branches (see spec/ObjImpl.tla): @@ keeps the left value of a
 \* keyword both sides set and adds the right side's other keywords
+\* two schemas of one property: a keyword both set keeps the first value, except the property map (merged key by
+\* key, recursively) and the required list (appended) -- mergo merges maps and, WithAppendSlice, appends slices
+RECURSIVE MergeS(_, _)
+RECURSIVE MergePropSeq(_, _)
+MergePropSeq(pa, pb) ==
+  [i \in DOMAIN pa |-> IF \E j \in DOMAIN pb : pb[j].k = pa[i].k
+                       THEN [k |-> pa[i].k, s |-> MergeS(pa[i].s, pb[CHOOSE j \in DOMAIN pb : pb[j].k = pa[i].k].s)]
+                       ELSE pa[i]]
+  \o SelectSeq(pb, LAMBDA kv : \A i \in DOMAIN pa : pa[i].k # kv.k)
+MergeS(a, b) ==
+  [f \in DOMAIN a \cup DOMAIN b |->
+     IF f \notin DOMAIN b THEN a[f]
+     ELSE IF f \notin DOMAIN a THEN b[f]
+     ELSE IF f = "properties" THEN MergePropSeq(a.properties, b.properties)
+     ELSE IF f = "required" THEN a.required \o b.required
+     ELSE a[f]]
 RECURSIVE MergePropsK(_, _)
 MergePropsK(acc, rest) ==
   IF rest = <<>> THEN acc
   ELSE LET ps == IF "properties" \in DOMAIN Head(rest) THEN Head(rest).properties ELSE <<>>
            upd == [i \in DOMAIN acc |->
                      IF \E j \in DOMAIN ps : ps[j].k = acc[i].k
-                     THEN [k |-> acc[i].k, s |-> acc[i].s @@ ps[CHOOSE j \in DOMAIN ps : ps[j].k = acc[i].k].s]
+                     THEN [k |-> acc[i].k, s |-> MergeS(acc[i].s, ps[CHOOSE j \in DOMAIN ps : ps[j].k = acc[i].k].s)]
                      ELSE acc[i]]
            new == SelectSeq(ps, LAMBDA kv : \A i \in DOMAIN acc : acc[i].k # kv.k)
        IN MergePropsK(upd \o new, Tail(rest))
@@ -419,8 +435,10 @@ ValidObj(env, s, d, D) ==
                    [] addl.k = "s" /\ "AddlValuesTypedOnly" \in D /\ Props(s) # <<>> ->
                         {IF ObjVal(d, k).t = "null" THEN Valid(env, addl.s, ObjVal(d, k), D, "addl", NoLim)
                          ELSE B3(AddlTyped(addl.s, ObjVal(d, k), D)) : k \in extra}
+                   \* ("addl": collected through mapstructure next to declared properties; "mapval": the value type of a
+                   \* Go map decoded by encoding/json itself)
                    [] addl.k = "s" /\ ~("AddlValuesTypedOnly" \in D /\ Props(s) # <<>>) ->
-                        {Valid(env, addl.s, ObjVal(d, k), D, "addl", NoLim) : k \in extra}
+                        {Valid(env, addl.s, ObjVal(d, k), D, IF Props(s) # <<>> THEN "addl" ELSE "mapval", NoLim) : k \in extra}
   IN And3({reqOK} \cup propsOK \cup extraOK \cup foldOK)
 
 (* ---------- the environment of a unit ---------- *)
